@@ -229,19 +229,23 @@ PROPS["C07"] = {
     "level": "exploration",
     "rule": ("rapid-generated histories (engine A grammar restricted to Timeout 0; expiries in seconds/minutes/unlimited chosen at least 15 s away "
              "from the restart instant; persist-immediately / never-persist / percent aof flags on 50% of the requests; value SET/PUSH/INCR attached when a "
-             "hold is created; unlocks incl. unlock-first/cancel; 1-3 s clock ticks; admin REWRITEAOF rotations+compactions at drawn points; 2 databases; "
+             "hold is created; re-entrant re-locks and updates of live holds; unlocks incl. unlock-first/cancel/one level; 1-3 s clock ticks; admin REWRITEAOF rotations+compactions at drawn points; 2 databases; "
              "aof_file_buffer_size in {64,128,256,4096}, db_lock_aof_time in {0,1}) run on instance 1 whose clock lags the wall clock by 15/45/130 s "
              "(= an outage of that length); at a quiescent point (persistence queue drained, file flushed) the directory is copied, a fresh leader is "
              "started on the copy (wall clock) and its in-package snapshot must contain exactly the persisted, still-live holds of instance 1 (same key, "
              "LockId, depth, Count, Rcount, value of keys whose holders all survive, deadline within one unit + 1 s, never later); must-persist rule "
              "(persist-immediately flag, or older than the delay) and never-persist rule checked on instance 1; then a second restart on what the first "
              "one left behind (it compacts at start-up) must recover the same again. Non-trivial: >=2 log files or a value blob, a hold released before "
-             "the restart, and >=1 hold restored. Distinct = FNV-64 of the operation list + parameters."),
+             "the restart, and >=1 hold restored (class counters also report cases with a restored re-entrant hold of depth >= 2). Distinct = FNV-64 of the operation list + parameters."),
     "assumptions": [
         "instance 1 runs on a harness-driven clock that lags the wall clock (hook H1); recovery runs on the wall clock as in production",
         "holds whose deadline lies within 6 s (+ one unit) of the restart instant may or may not be restored",
         "value operations on re-locks, updates and unlocks are not generated here (their persistence is not compared; C15 covers their semantics)",
-        "while the listed known findings are open a persisted history never re-locks or updates a live hold and never creates a hold with the update flag (excluded by construction, counted in evidence)",
+        "re-entrant re-locks and updates of live holds are generated; while the listed known findings are open each is narrowed by its own rule, counted per decision in the evidence: "
+        "no update flag on a request that creates a hold or on a hold not logged at its grant; a live hold is re-locked/updated only if old and new terms end more than 40 s after the outage and "
+        "every holder of the key was logged at its grant (a sole first holder may be re-locked before it is persisted, without aof timing flags); updates keep Count and Rcount; "
+        "holders of one key use one Count; a key that became free after carrying a value is not used again",
+        "a failure is reported only if the same case fails again with the same key when it is executed again from its recorded operations (background goroutines are not owned); otherwise it is counted as unreproduced anomaly",
         "size-triggered compaction (a goroutine racing the workload) is not generated here",
     ],
     "units": [
@@ -313,6 +317,7 @@ PROPS["C08"] = {
              "live persisted state. evaluations = generated histories; the class 'crash points' counts the cuts. Non-trivial: newest file has >=3 records and the case "
              "contains a cut with residue != 0 or a value-file cut. Distinct = FNV-64 of history + cut lists."),
     "assumptions": [
+        "a failure is reported only if the same case fails again with the same key when it is executed again from its recorded operations (background goroutines are not owned); otherwise it is counted as unreproduced anomaly; holds whose deadline lies within the margin of the current time are not compared between two recoveries",
         "the file image at a system-call boundary is the crash state (un-synced page cache is not modelled)",
         "only the newest append file and its value file are cut (older files are complete by construction of the writer)",
         "the crash point between the record write and the value write of one Flush is represented by value-file cuts; hook H4 is not used yet",
@@ -335,6 +340,7 @@ PROPS["C16"] = {
              "behind (it compacts again at start-up); the final directory must also recover the live persisted state. evaluations = histories; class 'crash images' counts the "
              "enumerated crash points. Non-trivial: >=2 append files compacted, an existing rewrite file, and a released hold in the inputs. Distinct = FNV-64 of the history."),
     "assumptions": [
+        "a failure is reported only if the same case fails again with the same key when it is executed again from its recorded operations (background goroutines are not owned); otherwise it is counted as unreproduced anomaly; holds whose deadline lies within the margin of the current time are not compared between two recoveries",
         "the compaction under test runs in the harness goroutine (same body as the goroutine the server starts); compactions racing with appends are not generated",
         "the directory image at a hook point (after a completed system call) is the crash state",
         "crash images between the removal of the inputs and the renames are skipped while the two listed known findings are open (counted in evidence); the C07 known findings are excluded by construction",
